@@ -102,7 +102,23 @@ def generate(seed, prop):
     from ..core import deep
     nmax = (12 if prop != "C20" else 8) * (2 if deep() else 1)
     nmin = 1 if (kind == "azimuthal" and not equal and rng.random() < 0.5) else 2
+    if prop == "C06" and rng.random() < 0.3:
+        # large window sets on a fine grid: the tails are trimmed a few windows at a time over many
+        # iterations, which is where the convergence test matters
+        grid = {"kind": "geom", "lo": 0.2, "hi": 20.0, "n": rng.choice([60, 90, 120])}
+        f = CV.gen_grid(grid)
+        nmin, nmax = 40, 110
+        n_az = 1 if kind == "traditional" else rng.choice([1, 2])
+        azimuths = CV.draw_azimuths(rng, n_az)
     curves = CV.draw_curve_sets(rng, len(f), n_az, equal_counts=equal, nmin=nmin, nmax=nmax)
+    if nmin >= 40:
+        for cs in curves:                      # resonances scattered around the centre like a (log)normal sample
+            c0 = len(f) // 2
+            for sp in cs:
+                sd = len(f) / 24.0 if rng.random() < 0.8 else len(f) / 7.0      # a tight core with heavy tails
+                sp.update({"r": "bump", "i0": int(min(max(round(rng.gauss(c0, sd)), 1), len(f) - 2)),
+                           "w": 0.12, "noise": 0.0})
+                sp.pop("at", None)
     if kind == "diffuse":
         curves = [[curves[0][0]]]
     azimuths = CV.draw_azimuths(rng, n_az)
@@ -146,6 +162,8 @@ def generate(seed, prop):
             w[k] *= 3
     if prop == "C06" and w["fdwra"] == 0:
         w["fdwra"] = 5.0
+    if prop == "C06" and max(len(c) for c in curves) >= 40:
+        w["fdwra"] = 12.0                      # large sets: mostly the algorithm itself, from different entry states
     if not same_counts:
         w["sta_lta"] = w["max_value"] = 0.0
     if kind == "diffuse":
@@ -1159,8 +1177,10 @@ def prepare_c06(ctx, st, which, op):
             m.update(mask=mask, it=it, status=status, trace=trace)
         models.append(m)
     pre["models"] = models
-    # twins (built before the call, from the pre-call state)
+    # twins (built before the call, from the pre-call state); large sets are judged by the refinement alone
     pre["twins"] = []
+    if max(len(a) for a in amps) > 16:
+        return pre
     r = rng_for(int(sha_array(st.amps[0])[:8], 16) ^ (ctx.ops_done * 7919))
     perms = [np.array(r.sample(range(len(a)), len(a))) for a in amps]
     try:
